@@ -95,6 +95,7 @@ def isWord (t : List Char) : Bool :=
 /-- the criterion a text denotes: operator and operand class; `none` = outside the statement -/
 def critOfText (s : List Char) : Option (Op × Cls) :=
   let (p, operand) := splitOp s
+  if operand.contains '\n' then none else
   match number? operand with
   | some q => some (opOfPrefix p, .number q)
   | none => if isWord operand then some (opOfPrefix p, .text (operand.map upperAscii)) else none
@@ -120,16 +121,22 @@ def holds (op : Op) (operand cell : Cls) : Bool :=
 def countif (op : Op) (operand : Cls) (cells : List Cls) : Nat :=
   (cells.filter (holds op operand)).length
 
-/-- does every criterion hold at position `i` of its own column? -/
-def allHold (pairs : List (List Cls × Op × Cls)) (i : Nat) : Bool :=
-  pairs.all fun (col, op, operand) =>
-    match col[i]? with
-    | some cell => holds op operand cell
-    | none => false
+/-- the criterion a criteria argument denotes: a text is parsed, any other value means equality -/
+def critOf (c : S) : Option (Op × Cls) :=
+  match c with
+  | .text s => critOfText s
+  | v => (cls v).map fun k => (Op.eq, k)
 
-/-- COUNTIFS over columns of common length `n`: the number of positions at which all criteria hold -/
-def countifs (n : Nat) (pairs : List (List Cls × Op × Cls)) : Nat :=
-  ((List.range n).filter (allHold pairs)).length
+/-- position-by-position conjunction of the per-column answers -/
+def flagsAnd : List (List Bool) → List Bool
+  | [] => []
+  | [f] => f
+  | f :: fs => List.zipWith (fun a b => a && b) f (flagsAnd fs)
+
+/-- COUNTIFS over columns of one common length: the number of positions at which every criterion
+    holds on its own column -/
+def countifs (pairs : List (List Cls × Op × Cls)) : Nat :=
+  ((flagsAnd (pairs.map fun (col, op, operand) => col.map (holds op operand))).filter id).length
 
 /-! ## MATCH -/
 
